@@ -61,24 +61,26 @@ impl FilterRule {
     /// - If pattern contains '/', match against full relative path
     /// - Otherwise, match against basename only
     pub fn matches(&self, path: &Path, is_dir: bool) -> bool {
+        // A name that is not valid UTF-8 is matched in its lossy form. (It used to match no
+        // pattern at all, not even `*`: an exclude could never remove such an entry.)
+        let text = |s: &std::ffi::OsStr| s.to_string_lossy().into_owned();
+        let base_name = |p: &Path| p.file_name().map(text);
+
         if self.is_dir_only {
             // Pattern ends with '/' - directory-only pattern
             // Matches the directory itself AND everything inside it
 
             if self.has_slash {
                 // Pattern with slash like "foo/bar/" - match against full path
-                if let Some(path_str) = path.to_str() {
-                    // Check if path itself matches (if it's a directory)
-                    if is_dir && self.pattern.matches(path_str) {
+                // Check if path itself matches (if it's a directory)
+                if is_dir && self.pattern.matches(&text(path.as_os_str())) {
+                    return true;
+                }
+                // Check if path is inside a matching directory
+                for ancestor in path.ancestors().skip(1) {
+                    let ancestor_str = text(ancestor.as_os_str());
+                    if !ancestor_str.is_empty() && self.pattern.matches(&ancestor_str) {
                         return true;
-                    }
-                    // Check if path is inside a matching directory
-                    for ancestor in path.ancestors().skip(1) {
-                        if let Some(ancestor_str) = ancestor.to_str() {
-                            if !ancestor_str.is_empty() && self.pattern.matches(ancestor_str) {
-                                return true;
-                            }
-                        }
                     }
                 }
                 false
@@ -94,24 +96,22 @@ impl FilterRule {
                     if !is_dir {
                         return false;
                     }
-                    if let Some(basename) = path.file_name().and_then(|n| n.to_str()) {
-                        return self.pattern.matches(basename);
+                    if let Some(basename) = base_name(path) {
+                        return self.pattern.matches(&basename);
                     }
                     false
                 } else {
                     // Specific directory name like "build/" - match directory and its contents
-                    if let Some(basename) = path.file_name().and_then(|n| n.to_str()) {
+                    if let Some(basename) = base_name(path) {
                         // Check if path itself is the matching directory
-                        if is_dir && self.pattern.matches(basename) {
+                        if is_dir && self.pattern.matches(&basename) {
                             return true;
                         }
                     }
                     // Check if any parent directory basename matches
                     for ancestor in path.ancestors().skip(1) {
-                        if let Some(ancestor_basename) =
-                            ancestor.file_name().and_then(|n| n.to_str())
-                        {
-                            if self.pattern.matches(ancestor_basename) {
+                        if let Some(ancestor_basename) = base_name(ancestor) {
+                            if self.pattern.matches(&ancestor_basename) {
                                 return true;
                             }
                         }
@@ -121,15 +121,11 @@ impl FilterRule {
             }
         } else if self.has_slash {
             // Pattern has '/' - match against full path
-            if let Some(path_str) = path.to_str() {
-                self.pattern.matches(path_str)
-            } else {
-                false
-            }
+            self.pattern.matches(&text(path.as_os_str()))
         } else {
             // No '/' in pattern - match against basename only (rsync behavior)
-            if let Some(basename) = path.file_name().and_then(|n| n.to_str()) {
-                self.pattern.matches(basename)
+            if let Some(basename) = base_name(path) {
+                self.pattern.matches(&basename)
             } else {
                 false
             }
